@@ -520,7 +520,8 @@ def _d_read(t, op, k, v, shape):
     return read(t, DICT_READS, pick(op, 0, len(DICT_READS) - 1), Args(k=k, v=v, shape=shape))
 
 
-# ---- harnesses (one per target container and operation family; generated text, see the bottom of checks/c28.py) --------
+# ---- harnesses: one per operation family and target container (repetitive on purpose: CrossHair reads each function's
+# own docstring, and every harness runs in its own worker process) ------------------------------------------------------
 
 
 def l_ops_jl0(op: int, i: int, n: int, v: int, shape: int, seq: int) -> bool:
